@@ -65,6 +65,8 @@ class Finding:
             return False
         if m.get('function') and ('/%s/' % m['function']) not in ('/' + r.name.split('/', 1)[1] + '/').replace('@', '/') and m['function'] != r.qual.split(':')[1]:
             return False
+        if m.get('function_prefix') and not r.qual.split(':', 1)[-1].startswith(m['function_prefix']):
+            return False
         if m.get('model') and not r.stream_model.startswith(m['model']):
             return False
         if m.get('clause') and not r.ob.name.endswith('/' + m['clause']) and m['clause'] not in r.ob.name:
@@ -183,7 +185,7 @@ def run(pid, tier, seed, a, t0):
         if pid not in spec['tags']:
             continue
         obls, why, paths = _ghost.run(src, spec['program'], spec['cls'], spec['tags'], spec.get('variant'), ghostreg.DOMAIN.get(spec['cls']))
-        gname = 'ghost:%s[%s%s]' % (spec['program'], spec['cls'], ',' + spec['variant'] if spec.get('variant') else '')
+        gname = 'ghost:%s[%s%s]' % (spec['program'], spec['cls'], ',' + str(spec['variant']) if spec.get('variant') else '')
         functions_under_contract.append(gname)
         if why:
             oor_all.append((gname, 'ghost', why))
